@@ -13,6 +13,8 @@ META = {
     "level_note": "Reading: a byte is 'offered' while the local state is opened (data pending when the peer's close is handled is never offered: booked under C07). Trusted: coqc kernel; sequential consistency; go/verisched instrumenter + scheduler (scheduling points only at the atomic accesses of stream.go and at harness marks: the model is finer and its theorems cover a superset of these schedules); the session stays open; one FIFO transport; payload = heap fallback slices.",
 }
 
+EXH_CAP_QUICK, EXH_CAP_THOROUGH = 3000, 120000
+
 SIG_LATE = "C20:data-before-SetCallbacks-not-offered-until-next-arrival"
 SIG_RACE = "C20:SetCallbacks-racing-arrival-resets-callbackInProcess-OnData-overlaps"
 
@@ -240,7 +242,7 @@ def check(run):
     quick = run.tier == "quick"
     n = 240 if quick else 6000
     cases, summ, err = run_harness("TestVerif_C20", "C20", n, run.seed, run.tier,
-                                   {"VERIF_EXH": "3000" if quick else "200000"})
+                                   {"VERIF_EXH": str(EXH_CAP_QUICK if quick else EXH_CAP_THOROUGH)})
     feats, distinct, kinds, strat = {}, set(), {}, {}
     if err:
         run.add_corr_break("S: " + err)
@@ -289,8 +291,17 @@ def check(run):
                 "Close inside OnData, a closer thread, a peer close, or a blocked wg.Wait; distinct by (config, outcome, features)",
         "samples": [brief(c) for c in cases[:2]],
         "kinds": kinds, "strategies": strat, "features": feats,
-        "exhaustive_two_arrivals": {"schedules": summ.get("exhaustive"), "complete": summ.get("exhaustive_complete")},
+        "exhaustive_two_arrivals": {"schedules": summ.get("exhaustive"), "complete": summ.get("exhaustive_complete"),
+                                    "cap": EXH_CAP_QUICK if quick else EXH_CAP_THOROUGH,
+                                    "note": "depth-first enumeration of the schedules of two arrivals against the callback goroutine(s) over the fine steps "
+                                            "(mutex, element walks, notify); a thread that just found the mutex / wait group / select busy is not polled again "
+                                            "before another thread has moved (a no-op, not a different schedule); the enumeration is cut at the cap (the thorough "
+                                            "cap was lowered from 200000 so that the thorough command ends within about ten minutes on a shared machine) and is "
+                                            "not complete at either cap"},
         "total_steps": sum(len(c.get("steps") or []) for c in cases),
+        # runs whose driven schedule was cut at the step / busy-poll bound and that then ran to completion undriven: the
+        # recorded steps are a prefix, so they are neither compared with the model nor judged by the step-bound oracle
+        "truncated_runs_not_compared": len([c for c in cases if c.get("truncated")]),
     })
     run.assumptions += [
         "sequential consistency of the instrumented accesses",
